@@ -29,14 +29,16 @@ type importSpec struct {
 //	plain  ordinary import
 //	alias  alias that is not a suffix of the path and whose path the template does not reserve
 //	dot    dot import (never pruned)
-//	asfx   alias that is a suffix of the import path (real-world: v2 ".../v2", pb ".../userpb")
+//	asfx   alias that is a suffix of the import path but not the package name (real-world: v2 ".../v2",
+//	       pb ".../userpb"); an alias EQUAL to the package name (hex "encoding/hex") is redundant, dropping
+//	       it loses nothing, so it is not in the pool
 //	arsv   alias of a path that resolver.gotpl reserves itself (errors, fmt, io, ...)
 //	blank  blank import (never pruned); blank2: a second blank import in the same file
 var importPool = map[string][]importSpec{
 	"plain": {{"", "strings", `_ = strings.ToUpper("x")`}, {"", "unicode/utf8", `_ = utf8.RuneLen('x')`}},
 	"alias": {{"pth", "path", `_ = pth.Base("x/y")`}, {"txt", "text/tabwriter", `_ = txt.Debug`}},
 	"dot":   {{".", "math", `_ = Sqrt(2)`}, {".", "sort", `_ = SearchInts([]int{1}, 1)`}},
-	"asfx":  {{"v2", "math/rand/v2", `_ = v2.IntN(3)`}, {"hex", "encoding/hex", `_ = hex.EncodeToString(nil)`}, {"ode", "unicode", `_ = ode.IsUpper('x')`}},
+	"asfx":  {{"v2", "math/rand/v2", `_ = v2.IntN(3)`}, {"ode", "unicode", `_ = ode.IsUpper('x')`}},
 	"arsv":  {{"stderrors", "errors", `_ = stderrors.New("x")`}, {"gotime", "time", `_ = gotime.Second`}, {"stdio", "io", `_ = stdio.EOF`}},
 	"blank": {{"_", "embed", ""}},
 	"blank2": {{"_", "image/png", ""}, {"_", "image/gif", ""}},
